@@ -16,6 +16,7 @@ enum { A_VALUE, A_EXC, A_DROP, A_NOTHING, A_ASYNC_VALUE, A_ASYNC_THROW, A_COUNT,
        A_BIND,                        // auto fn = shared.bind(value); fn()
        A_UNHANDLED,                   // catch (...) { shared.unhandled_exception(); }
        A_DEFAULT_DTOR,                // promise_with_default<T> d(std::move(shared), dflt); ~d - resolves to the default value
+       A_BIND_DROP,                   // (single resolver only) { auto fn = shared.bind(value); }  - the bound object dies uncalled: no-value
        A_ALL };
 // waiter kinds
 enum { W_COAWAIT, W_HASVALUE, W_WAIT, W_SYNC, W_SUBSCRIBE, W_CALLBACK_AWAIT, W_POLL, W_FORCE_WAIT_IN_CORO, W_OPERATOR_BOOL, W_COUNT,
@@ -55,13 +56,14 @@ inline Prog decode(hz::Reader &r, Mode m) {
     for (auto &x : p.res) { unsigned e = r.mod(8); if (e >= 3) x.action = (uint8_t)(A_MOVE_THEN_VALUE + (e - 3)); }
     for (auto &x : p.wai) { unsigned e = r.mod(8); if (e == 7) x.kind = W_PARALLEL; }
     { unsigned e = r.mod(8); if (m != M_C01 && e >= 5) { p.factory = (uint8_t)(e - 4); p.moves = 0; p.assign_over = false; for (auto &x : p.res) x.action = A_NOTHING; } }
+    { unsigned e = r.mod(4); if (m != M_C01 && p.res.size() == 1 && e == 3 && !p.factory) for (auto &x : p.res) if (x.action == A_BIND || x.action == A_VALUE) x.action = A_BIND_DROP; }
     return p;
 }
 
 inline std::string describe(const Prog &p) {
     static const char *vt[] = {"int", "void", "move-only", "int&", "Counted"};
     static const char *act[] = {"value", "exception", "drop", "nothing", "async completes with value", "async throws",
-        "move the promise into a local, then value", "move-assign the promise into a local and destroy it", "bind(value) then call", "unhandled_exception() in a catch block", "move into promise_with_default and destroy it"};
+        "move the promise into a local, then value", "move-assign the promise into a local and destroy it", "bind(value) then call", "unhandled_exception() in a catch block", "move into promise_with_default and destroy it", "bind(value), the bound object is destroyed without being called"};
     static const char *wk[] = {"co_await f", "co_await f.has_value()", "f.wait()", "f.sync()", "subscribe(custom awaiter)", "callback_await", "poll ready()", "force_wait() inside a coroutine", "if (f) ... *f (operator bool / operator*)", "co_await cocls::parallel(f)"};
     hz::Desc d;
     if (p.factory) d << "[the future is born resolved: " << (p.factory == 1 ? "future<T>::set_value(v)" : p.factory == 2 ? "future<T>::set_exception(e)" : "future<T>::set_not_value()") << ", there is no promise] ";
@@ -138,6 +140,15 @@ struct Ctx {
         else if constexpr (VT == 3) return call_value(i);          // bind() stores decayed copies: not meaningful for a reference result
         else { auto fn = prom->bind(val::Counted(value_of(i))); return fn(); }
     }
+    // the resolution is prepared with bind() but never performed: the promise inside the bound object is destroyed unresolved
+    bool bound_dropped(int i) {
+        if constexpr (VT == 0) { auto fn = prom->bind(value_of(i)); (void)fn; }
+        else if constexpr (VT == 1) { auto fn = prom->bind(); (void)fn; }
+        else if constexpr (VT == 2) { auto fn = prom->bind(val::MoveOnly(value_of(i))); (void)fn; }
+        else if constexpr (VT == 3) { auto fn = prom->bind(slots[i]); (void)fn; }
+        else { auto fn = prom->bind(val::Counted(value_of(i))); (void)fn; }
+        return true;             // (the only resolver of the case: the bound object owned the promise)
+    }
     bool default_dtor(int i) {
         if constexpr (VT == 0 || VT == 2 || VT == 4) {
             cocls::promise_with_default<T> d(std::move(*prom), 200 + i);
@@ -179,6 +190,7 @@ void resolver_thread(Ctx<VT> &c, int i) {
         case A_MOVE_THEN_VALUE: { cocls::promise<typename Tr<VT>::T> mine(std::move(*c.prom)); hz::upoint(); r.won = c.call_value_on(mine, i); } break;
         case A_MOVE_ASSIGN_DTOR: { cocls::promise<typename Tr<VT>::T> mine; mine = std::move(*c.prom); r.won = (bool)mine; hz::upoint(); } break;
         case A_BIND: r.won = c.call_bound(i); break;
+        case A_BIND_DROP: r.won = c.bound_dropped(i); break;
         case A_UNHANDLED: try { throw val::TestExc(i); } catch (...) { r.won = c.prom->unhandled_exception(); } break;
         case A_DEFAULT_DTOR: r.won = c.default_dtor(i); break;
         case A_ASYNC_VALUE: case A_ASYNC_THROW: {
